@@ -1,4 +1,5 @@
 import Secp.Proofs.Equal
+import Secp.Proofs.ElementApiTiesEq
 import Secp.Proofs.LimbGroup
 /-!
 # C05 — Element equality and identity test are representation-independent
@@ -36,5 +37,10 @@ theorem equal_neg (P : Pt L4) (hP : Valid P) (h : equal F P (negate F P) = 1) : 
 
 example : Valid Hand.ElementL.base := base_valid
 example : Valid (identity F) := identity_valid limbLawful
+
+/-- `Equal` (both aliasing patterns) and `IsIdentity`, regenerated from `element.go` on every run, are the model above -/
+theorem api_methods_tied {α : Type} (F : FieldOps α) (e v : Pt α) :
+    GenElementAPI.equal_e_v F e v = Hand.Element.equal F e v ∧ GenElementAPI.equal_ev F e = Hand.Element.equal F e e ∧
+    GenElementAPI.isIdentity F e = Hand.Element.isIdentity F e := ⟨rfl, rfl, rfl⟩
 
 end C05
